@@ -19,10 +19,10 @@ in order; per-index facts below, cross-checked against CPython by a static check
 The ORDER of the registered names (own, then base by base) is how the collection is pinned down here; the statement
 itself only needs the two membership clauses derived from it.
 
-Not claimed here (bounded: C14/metaclass-inherited-names): that the class attribute `signals` of a class WITHOUT an own
-declaration shows the names of all its bases to ITS subclasses -- on the current tree it does not (`d["signals"] = ...`
-writes the namespace dict after type.__new__ copied it, the attribute stays the first base's list), so a grandchild of
-`class AB(A, B): pass` loses B's names (candidate defect, reported)."""
+The last clause (what the new class's attribute `signals` shows to ITS subclasses) failed on the tree before /repo fix
+ca3255d: `d["signals"] = ...` wrote the namespace dict after type.__new__ had copied it, the attribute of a class
+without an own declaration stayed the first base's list, and a grandchild of `class AB(A, B): pass` lost B's names
+(found by the bounded check C14/metaclass-inherited-names)."""
 import itertools
 
 import z3
@@ -263,19 +263,27 @@ class metasignals_init:
         own_ref = st.ghost["own_ref"]
         others = [b.fields["signals"] for b in bases if "signals" in b.fields] + ([own_ref] if own_ref is not None else [])
         yield "registered-list-is-a-new-object", all(L is not o for o in others)
-        yield "namespace-entry-is-the-registered-list", a.d.d.get("signals") is L
         # no base class is touched: its visible list is the same object with the same content as before
         for bi, b in enumerate(bases):
             if "signals" in b.fields:
                 yield f"base{bi}-signals-untouched", same_content(b.fields["signals"].seq, entry["bases"][bi].seq, i)
             else:
                 yield f"base{bi}-gains-no-attribute", "signals" not in b.fields
-        # the class's own declaration (the list object that stays the class attribute) is what subclasses will read
-        # through getattr(superclass, "signals"): it must show the inherited names too, or a grandchild loses them
-        if own_ref is not None:
-            yield "own-declaration-still-the-class-attribute", s.fields.get("signals") is own_ref
-            yield "own-declaration-extended-with-the-inherited-names", both(
-                length(own_ref.seq) == n_spec, implies(in_spec(i), eq(item(own_ref.seq, i), spec(i))))
+        # what SUBCLASSES will read through getattr(superclass, "signals") -- the new class's visible attribute -- must show
+        # every name registered for it, or a grandchild loses inherited names: it is the registered list itself, or
+        # the class's own declaration extended in place with the inherited names, or (nothing assigned, no own
+        # declaration) the first base's list, which is enough only if no other base contributes a list of its own
+        vis = s.fields.get("signals")
+        base_refs = [b.fields["signals"] for b in bases if "signals" in b.fields]
+        if vis is L or (isinstance(vis, LRef) and vis.seq is R):
+            shows = True
+        elif own_ref is not None and vis is own_ref:
+            shows = both(length(own_ref.seq) == n_spec, implies(in_spec(i), eq(item(own_ref.seq, i), spec(i))))
+        elif vis is None:
+            shows = n_spec == 0
+        else:
+            shows = both(own_ref is None, *[True if o is vis else length(o.seq) == 0 for o in base_refs])
+        yield "class-attribute-shows-every-registered-name-to-subclasses", shows
         yield "returns-None", result is None
 
     static_checks = [
